@@ -720,3 +720,12 @@ func maskNames(s, a, b string) string {
 	s = strings.ReplaceAll(s, an, "#")
 	return strings.ReplaceAll(s, bn, "#")
 }
+
+// InModulePkg reports whether p is one of the analysed module's packages.
+func (e *Engine) InModulePkg(p *types.Package) bool {
+	if p == nil {
+		return false
+	}
+	_, ok := e.SSAPkg[p.Path()]
+	return ok
+}
